@@ -292,7 +292,7 @@ func checkScopePairing(w *World, r *Report, d *dispatchInfo, id string) {
 
 // checkAllowLoops verifies the two Allow-building loops.
 func checkAllowLoops(w *World, r *Report, d *dispatchInfo) {
-	ru := r.Rule("C11.4", "Allow loops: each lazy lookup uses the loop root's key, the request host and the very path value of the main lookup; a method is appended only when the lookup matched and (no trailing-slash action is needed or the route ignores trailing slashes); the 405 loop skips exactly the request method; the Allow header is set before the special handler runs", 3)
+	ru := r.Rule("C11.4", "Allow loops: each lazy lookup uses the loop root's key, the request host and the very path value of the main lookup; a method is appended only when the lookup matched and (no trailing-slash action is needed, or the route ignores trailing slashes and the method is not CONNECT — the conditions under which ServeHTTP would serve it); the 405 loop skips exactly the request method; the Allow header is set before the special handler runs", 3)
 	if len(d.lazyLooks) != 2 {
 		ru.Fail("lazy lookups in ServeHTTP", w.Pos(d.fn.Pos()), "one lazy lookup per Allow loop (OPTIONS and 405)", fmt.Sprintf("%d found", len(d.lazyLooks)))
 	}
@@ -335,12 +335,12 @@ func checkAllowLoops(w *World, r *Report, d *dispatchInfo) {
 			ru.Fail(name+" acceptance", w.Pos(c.Pos()), "the method is appended to the Allow list under the acceptance predicate", "no append of the root key found after the lookup")
 			continue
 		}
-		bad := ""
+		bad, badConnect := "", ""
 		npaths := 0
 		for _, ab := range accept {
 			for _, path := range pathsBetween(c.Block(), ab, 64) {
 				npaths++
-				nn, noTsr, ign := false, false, false
+				nn, noTsr, ign, notConnect := false, false, false, false
 				for j := 0; j+1 < len(path); j++ {
 					if f, ok := edgeFact(path[j], path[j+1]); ok {
 						if bo, ok := f.Cond.(*ssa.BinOp); ok && bo.X == nVal && isNilConst(bo.Y) {
@@ -354,15 +354,31 @@ func checkAllowLoops(w *World, r *Report, d *dispatchInfo) {
 						if _, fld, ok := loadedField(f.Cond); ok && fld == ignoreF && f.Val {
 							ign = true
 						}
+						// the visited method is not CONNECT (the serving branch never takes a trailing-slash action for CONNECT)
+						if bo, ok := f.Cond.(*ssa.BinOp); ok {
+							for _, pr := range [][2]ssa.Value{{bo.X, bo.Y}, {bo.Y, bo.X}} {
+								if s, ok := constString(pr[1]); ok && s == "CONNECT" {
+									if _, kf2, ok := loadedField(pr[0]); ok && kf2.Name() == "key" && ((bo.Op == token.NEQ && f.Val) || (bo.Op == token.EQL && !f.Val)) {
+										notConnect = true
+									}
+								}
+							}
+						}
 					}
 				}
 				if !(nn && (noTsr || ign)) {
 					bad = fmt.Sprintf("a path appends the method with n!=nil=%v !tsr=%v ignoreTrailingSlash=%v", nn, noTsr, ign)
 				}
+				if nn && !noTsr && ign && !notConnect {
+					badConnect = "a method matched only through an ignored trailing slash is appended without testing that it is not CONNECT: ServeHTTP never takes a trailing-slash action for CONNECT, so CONNECT is advertised for a path it does not serve"
+				}
 			}
 		}
 		sigs = append(sigs, fmt.Sprintf("%d", npaths))
 		ru.Check(name+" acceptance", w.Pos(c.Pos()), "appended only if n != nil && (!tsr || route.ignoreTrailingSlash)", bad == "" && npaths > 0, orDefault(bad, fmt.Sprintf("%d accepting path(s), all under the predicate", npaths)))
+		if npaths > 0 {
+			ru.Check(name+" CONNECT exclusion", w.Pos(c.Pos()), "a method accepted through an ignored trailing slash is not CONNECT (sibling of the serving branch, which refuses trailing-slash actions for CONNECT)", badConnect == "", orDefault(badConnect, "tested"))
+		}
 
 		// method exclusion
 		excl := false
